@@ -338,7 +338,7 @@ def shards(tier):
     rs = rules()
     out = [{'name': 'matrix-%d' % i, 'kind': 'matrix', 'rules': [list(r) for r in rs[i::8]]} for i in range(8)]
     out.append({'name': 'send-grid', 'kind': 'sendgrid'})
-    out += [{'name': 'sends-%d' % i, 'kind': 'sends', 'examples': 500 if tier == 'quick' else 12000, 'hypothesis': True}
+    out += [{'name': 'sends-%d' % i, 'kind': 'sends', 'examples': 500 if tier == 'quick' else 30000, 'hypothesis': True}
             for i in range(8)]
     return out
 
